@@ -278,6 +278,39 @@ def _GridWorld(case, rng):
         case.count("gridworld_key_order_checks")
         if bad2 is not case.FAIL:
             case.check(not bad2, "gridworld:transition-depends-on-the-key-order-of-an-equal-state", lambda: f"{bad2[:1]!r}")
+        # a grid world written by SUBCLASSING: a closed gate (one more wall) and a pit (one more absorbing cell) added by
+        # overriding the public `walls` / `absorbing_states` accessors, the way the class's own physics reads them
+        free = [xy for xy, f in sorted(feat.items()) if f == "."]
+        if len(free) >= 2 and rng.random() < 0.35:
+            gate_xy, pit_xy = rng.sample(free, 2)
+            gate, pit = frozendict({"x": gate_xy[0], "y": gate_xy[1]}), frozendict({"x": pit_xy[0], "y": pit_xy[1]})
+
+            class Gated(GridWorld):
+                @property
+                def walls(self_):
+                    return GridWorld.walls.fget(self_) + [gate]
+
+                @property
+                def absorbing_states(self_):
+                    return GridWorld.absorbing_states.fget(self_) + [pit]
+            g2 = case.call("GridWorld subclass(walls / absorbing_states overridden)", Gated, tile_array=rows, **gkw)
+            if g2 is not case.FAIL:
+                def gated():
+                    bad3 = []
+                    for s_ in g2.state_list:
+                        if s_ == TERMINALSTATE:
+                            continue
+                        for a_ in g2.actions(s_):
+                            d_ = {k: v for k, v in g2.next_state_dist(s_, a_).items() if v > 0}
+                            if s_ == pit and d_ != {TERMINALSTATE: 1}:
+                                bad3.append(("pit does not absorb", dict(s_), d_))
+                            if s_ != gate and gate in d_:
+                                bad3.append(("entered the closed gate", dict(s_), dict(a_), d_))
+                    return bad3
+                bad3 = case.call("next_state_dist(subclass)", gated)
+                case.count("gridworld_subclass_accessor_overrides_checked")
+                if bad3 is not case.FAIL:
+                    case.check(not bad3, "gridworld:physics-ignores-the-model's-own-walls/absorbing_states", lambda: f"{bad3[:2]!r} layout {rows!r}")
     return gw, params, dict(physics=physics if gw is not case.FAIL else None)
 
 
